@@ -116,7 +116,7 @@ func typeIsIface(t types.Type, pkg string, names ...string) bool {
 		return false
 	}
 	for _, n := range names {
-		if nt.Obj().Name() == n {
+		if objName(nt.Obj()) == n {
 			return true
 		}
 	}
